@@ -33,7 +33,7 @@ func writeEvidenceFailure(opts CheckOpts, why string, wall float64) {
 		"wall_s":   wall, "violations": 0, "assumptions": []string{},
 		"status": "inconclusive",
 	}
-	writeJSON(filepath.Join(VerifDir, "evidence", opts.Prop+".json"), ev)
+	writeJSON(filepath.Join(OutRoot, "evidence", opts.Prop+".json"), ev)
 }
 
 func tierName(t string) string {
@@ -135,7 +135,7 @@ func writeEvidence(opts CheckOpts, results []*HarnessResult, validated, nviol in
 		},
 		"assumptions": as, "wall_s": round2(wall), "violations": nviol, "status": status,
 	}
-	writeJSON(filepath.Join(VerifDir, "evidence", opts.Prop+".json"), ev)
+	writeJSON(filepath.Join(OutRoot, "evidence", opts.Prop+".json"), ev)
 }
 
 func round2(f float64) float64 { return float64(int(f*100)) / 100 }
